@@ -26,6 +26,9 @@ pub enum Handlers {
     Collect(usize, Vec<usize>),
     /// `k` receiver threads, each takes one request and holds it until all are held
     Park(usize),
+    /// one thread: the first request's raw writer is taken at once (its body unread) and kept
+    /// while the other `k - 1` requests are collected; then everything is answered in order
+    WriterFirst(usize),
 }
 
 pub struct CtlCase {
@@ -374,6 +377,7 @@ pub fn execute(c: &CtlCase, cfg: &Config) -> Outcome {
                 };
                 let mut idx = 0usize;
                 let mut held: Vec<(tiny_http_rt::Request, usize)> = vec![];
+                let mut first_writer: Option<Box<dyn Write + Send>> = None;
                 // the two usual application loops: `loop { server.recv() }` and
                 // `for rq in server.incoming_requests()` (one iterator for the whole conversation)
                 let through_iterator = script.len() % 2 == 0;
@@ -413,6 +417,28 @@ pub fn execute(c: &CtlCase, cfg: &Config) -> Outcome {
                             });
                         }
                         Handlers::Park(_) => unreachable!(),
+                        Handlers::WriterFirst(k) => {
+                            if i == 0 {
+                                // `into_writer()` gives up the request: what is left of its body is skipped now
+                                first_writer = Some(rq.into_writer());
+                            } else {
+                                let mut rq = rq;
+                                read_phase(&mut rq, &act(i), i, &log);
+                                held.push((rq, i));
+                            }
+                            if held.len() + 1 == *k {
+                                if let Some(mut w) = first_writer.take() {
+                                    if let Finish::Writer(ops) = &act(0).fin {
+                                        do_ops(&mut *w, ops);
+                                    }
+                                    drop(w);
+                                    log.lock().unwrap()[0].result = Some(true);
+                                }
+                                for (rq, i) in held.drain(..) {
+                                    finish_phase(rq, &act(i), i, &log);
+                                }
+                            }
+                        }
                         Handlers::Collect(k, order) => {
                             // the body is asked for / read at once; the answer comes later
                             let mut rq = rq;
